@@ -96,3 +96,14 @@ V("vanilla-no-method-return", "C09", "pyteal/ast/router.py", "                ha
 V("fp-double-log", "C09", "pyteal/ast/router.py", "                returned_val.store_into(output_temp),\n                abi.MethodReturn(output_temp),\n            ]", "                returned_val.store_into(output_temp),\n                abi.MethodReturn(output_temp),\n                abi.MethodReturn(output_temp),\n            ]", "R09.4")
 V("contract-name-mismatch", "C09", "pyteal/ast/router.py", "            meth.name = overriding_name\n", "            pass\n", "R09.5")
 V("method-return-order", "C09", "pyteal/ast/abi/method_return.py", "Log(Concat(Bytes(RETURN_HASH_PREFIX), self.arg.encode()))", "Log(Concat(self.arg.encode(), Bytes(RETURN_HASH_PREFIX)))", "R09.4")
+
+# ------------------------------------------------------------------------------- C06
+V("bool-seq-length-floor", "C06", "pyteal/ast/abi/bool.py", "    return (num_bools + NUM_BITS_IN_BYTE - 1) // NUM_BITS_IN_BYTE", "    return max(1, num_bools // NUM_BITS_IN_BYTE)", None)
+V("static-array-bool-unpacked", "C06", "pyteal/ast/abi/array_static.py", "        if value_type == BoolTypeSpec():\n            return _bool_sequence_length(length)\n", "", "R06.1")
+V("uint-encode-16-wrong-suffix", "C06", "pyteal/ast/abi/uint.py", "        return Suffix(Itob(uint_var), Int(6))", "        return Suffix(Itob(uint_var), Int(5))", "R06.3")
+V("uint-set-no-assert-32", "C06", "pyteal/ast/abi/uint.py", "    if checked or size == 64:", "    if checked or size >= 32:", "R06.3")
+V("tuple-head-dynamic-4", "C06", "pyteal/ast/abi/tuple.py", "        if elemType.is_dynamic():\n            head_length_static += 2", "        if elemType.is_dynamic():\n            head_length_static += 4", "R06.2")
+V("tuple-accumulator-always", "C06", "pyteal/ast/abi/tuple.py", "                    tail_offset.get() + Len(encoded_tail.load())", "                    tail_offset.get() + Len(tail_holder.load())", "R06.2")
+V("dyn-array-no-prefix", "C06", "pyteal/ast/abi/array_base.py", "            encoded = Concat(length_prefix, encoded)", "            encoded = Concat(encoded, length_prefix)", "R06.4")
+V("address-str", "C06", "pyteal/ast/abi/address.py", "        return \"address\"", "        return \"byte[32]\"", "R06.1")
+V("string-not-dynamic", "C06", "pyteal/ast/abi/array_dynamic.py", "    def is_dynamic(self) -> bool:\n        return True", "    def is_dynamic(self) -> bool:\n        return self.value_type_spec().is_dynamic()", "R06.1")
